@@ -975,7 +975,8 @@ func TestVerifC35(t *testing.T) {
 	full := c35FullAlphabet()
 	reduced := c35ReducedAlphabet(c.Thorough())
 	c.Set("alphabet_full", len(full))
-	c.Set("alphabet_histories", len(reduced))
+	c.Set("alphabet_histories_large", len(reduced))
+	c.Set("alphabet_histories_small", len(c35ReducedAlphabet(false)))
 	c.Set("alphabet_dimensions", map[string]int{"senders": len(c35Senders), "types": len(c35Types), "claims": len(c35Claims), "underlay_lists": c35Lists, "relay_lists": c35Relays, "receiver_roles": len(c35Roles)})
 
 	// determinism: the same history twice gives the same observations
@@ -1065,47 +1066,46 @@ func TestVerifC35(t *testing.T) {
 	c.Add("states", int64(len(states)))
 	c.Set("product_runs", productRuns)
 
-	// ---- history phase: BFS by replay over the reduced alphabet --------------------------------------------------
-	depth := mc.Pick(c, 3, 3)
-	perRole := map[string]any{}
-	for _, role := range c35Roles {
-		if !c.Thorough() && role.Name == c35Roles[1].Name {
-			continue // quick: the v1 lighthouse variant is covered by the product phase only
-		}
-		role := role
-		res := mc.BFSReplay(c, mc.BFSConfig[c35Msg]{
-			MaxDepth: depth,
-			Workers:  0, // parallel: only the handler call + clock advance is serialised (c35Clock)
-			Label:    func(m c35Msg) string { return m.String() },
-			Stop:     func() bool { return c.OutOfTime() || c.Violations() > 500 },
-			Run: func(hist []c35Msg) (string, []c35Msg) {
-				w := c35NewWorld(c, role, stats)
-				for i, m := range hist {
-					w.apply(m, i == len(hist)-1)
-				}
-				return w.key(), reduced
-			},
-		})
-		perRole[role.Name] = map[string]any{"states": res.States, "transitions": res.Transitions, "max_depth": res.MaxDepth, "closed_at_depth": res.Exhaustive}
+	// ---- history phase: BFS by replay over the reduced alphabets -------------------------------------------------
+	type c35Pass struct {
+		name  string
+		alpha []c35Msg
+		depth int
+		roles []int
 	}
-	if c.Thorough() && !c.OutOfTime() {
-		// deeper histories for the lighthouse receiver over the small (quick) alphabet
-		small := c35ReducedAlphabet(false)
-		role := c35Roles[0]
-		res := mc.BFSReplay(c, mc.BFSConfig[c35Msg]{
-			MaxDepth: 5,
-			Workers:  0,
-			Label:    func(m c35Msg) string { return m.String() },
-			Stop:     func() bool { return c.OutOfTime() || c.Violations() > 500 },
-			Run: func(hist []c35Msg) (string, []c35Msg) {
-				w := c35NewWorld(c, role, stats)
-				for i, m := range hist {
-					w.apply(m, i == len(hist)-1)
-				}
-				return w.key(), small
-			},
-		})
-		perRole[role.Name+" (small alphabet, depth 5)"] = map[string]any{"states": res.States, "transitions": res.Transitions, "max_depth": res.MaxDepth, "closed_at_depth": res.Exhaustive}
+	small := c35ReducedAlphabet(false)
+	passes := []c35Pass{{"small alphabet", small, 3, []int{0, 2}}} // quick: the v1 lighthouse variant is covered by the product phase only
+	if c.Thorough() {
+		passes = []c35Pass{
+			{"small alphabet", small, 3, []int{0, 1, 2}},
+			{"large alphabet", reduced, 3, []int{2, 0, 1}},
+			{"small alphabet, deeper", small, 5, []int{0}},
+		}
+	}
+	depth := 3
+	perRole := map[string]any{}
+	for _, ps := range passes {
+		for _, ri := range ps.roles {
+			if c.OutOfTime() {
+				c.Capped("time budget (history phase)")
+				break
+			}
+			role, ps := c35Roles[ri], ps
+			res := mc.BFSReplay(c, mc.BFSConfig[c35Msg]{
+				MaxDepth: ps.depth,
+				Workers:  0, // parallel: only the handler call + clock advance is serialised (c35Clock)
+				Label:    func(m c35Msg) string { return m.String() },
+				Stop:     func() bool { return c.OutOfTime() || c.Violations() > 500 },
+				Run: func(hist []c35Msg) (string, []c35Msg) {
+					w := c35NewWorld(c, role, stats)
+					for i, m := range hist {
+						w.apply(m, i == len(hist)-1)
+					}
+					return w.key(), ps.alpha
+				},
+			})
+			perRole[role.Name+" / "+ps.name] = map[string]any{"alphabet": len(ps.alpha), "depth_bound": ps.depth, "states": res.States, "transitions": res.Transitions, "max_depth": res.MaxDepth, "frontier_emptied": res.Exhaustive}
+		}
 	}
 	c.Set("histories", perRole)
 	c.Set("history_depth", depth)
